@@ -217,6 +217,23 @@ Theorem C07_rollback_old_or_new : forall f tgt cur k p,
 Proof. exact rollback_old_or_new. Qed.
 Print Assumptions C07_rollback_old_or_new.
 
+(* re-running rollback after an interruption at ANY fault point (record not yet visible): the same
+   rollback succeeds again and produces, at every path, the content of the uninterrupted rollback *)
+Theorem C07_rollback_rerun : forall w id tgt cur h w' k,
+  nth_error (snaps w) id = Some tgt -> head_of (snaps w) = Some h -> nth_error (snaps w) h = Some cur ->
+  rollback w id = (RbOk, w') ->
+  NoDup (map (fun e : str * path * N => snd (fst e)) (sn_managed tgt)) ->
+  NoDup (map (fun e : str * path * N => snd (fst e)) (sn_managed cur)) ->
+  (forall e, In e (sn_managed tgt) -> is_manifest_path (snd (fst e)) = false) ->
+  (forall e, In e (sn_managed cur) -> is_manifest_path (snd (fst e)) = false) ->
+  (forall e e', In e (sn_managed cur) -> In e' (sn_managed tgt) -> snd (fst e) = snd (fst e') -> fst (fst e) = fst (fst e')) ->
+  NoDup (map a_path (filter (fun c => is_manifest_path (a_path c) && is_cu (a_op c)) (sn_changes tgt))) ->
+  let wc := {| files := cfiles (run_prefix k (steps_of_rollback (files w) tgt cur) (init_state (files w)));
+               snaps := snaps w |} in
+  exists w2, rollback wc id = (RbOk, w2) /\ forall p, files w2 p = files w' p.
+Proof. exact rollback_rerun. Qed.
+Print Assumptions C07_rollback_rerun.
+
 (* the rollback record is written only after all restores and deletes *)
 Theorem C07_rollback_record_last : forall f tgt cur k,
   crecord (run_prefix k (steps_of_rollback f tgt cur) (init_state f)) = true ->
